@@ -127,6 +127,9 @@ class Arith:
             return self.const(int(v))
         if isinstance(v, (int, float)):
             return self.const(v)
+        if isinstance(v, Undefined):
+            from .interp import UndefinedUse
+            raise UndefinedUse("arithmetic on an undefined value")
         raise Unsupported(f"num({type(v).__name__}: {v!r})")
 
     def to_float(self, v):
@@ -162,6 +165,9 @@ class Arith:
         return i
 
     def to_bool(self, v):
+        if isinstance(v, Undefined):
+            from .interp import UndefinedUse
+            raise UndefinedUse("truth value of an undefined value")
         if isinstance(v, Guarded):
             return self.dist(v, self.to_bool)
         if isinstance(v, z3.BoolRef):
@@ -235,7 +241,10 @@ class Arith:
             except Unsupported:
                 return Guarded([(c, a), (z3.Not(c), b)])
             if ea.cls is eb.cls:
-                return EnumSym(ea.cls, z3.If(c, ea.val, eb.val))
+                t = z3.If(c, ea.val, eb.val)
+                if self.mode == "bv":
+                    self.mag[t.get_id()] = max(self.bits(ea.val), self.bits(eb.val))
+                return EnumSym(ea.cls, t)
             return Guarded([(c, a), (z3.Not(c), b)])
         if isinstance(a, (SBytes, bytes)) and isinstance(b, (SBytes, bytes)) and len(a) == len(b):
             x, y = self.sbytes(a), self.sbytes(b)
@@ -283,7 +292,8 @@ class Arith:
             res = r if first else self.ite(c, r, res)
             first = False
         if first:
-            raise Unsupported("use of undefined value")
+            from .interp import UndefinedUse
+            raise UndefinedUse("use of undefined value")
         return res
 
     def sbytes(self, v):
@@ -295,6 +305,9 @@ class Arith:
 
     # ------------------------------------------------------------ binary operators
     def binop(self, op, a, b, pc):
+        if isinstance(a, Undefined) or isinstance(b, Undefined):
+            from .interp import UndefinedUse
+            raise UndefinedUse("operator on an undefined value")
         if isinstance(a, Guarded):
             return self.dist(a, lambda v: self.binop(op, v, b, pc))
         if isinstance(b, Guarded):
